@@ -95,6 +95,9 @@ def generate(rnd, tier):
                                    "fnr_support": rnd.randint(1, 50), "fpr_support": rnd.randint(1, 50),
                                    "sigma_pos": rnd.choice([1.0, round(rnd.uniform(0.05, 20), 2)]),
                                    "sigma_neg": rnd.choice([1.0, round(rnd.uniform(0.05, 20), 2)])}}
+        if rnd.random() < 0.3:
+            # supports read off an integer array (cells of a confusion matrix): NumPy integer scalars of any width
+            normal["from_metrics"]["support_type"] = rnd.choice(["int8", "uint8", "uint16", "int16", "int32", "int64", "uint64"])
     else:
         normal = {"mu_pos": round(rnd.uniform(-10, 10), 3), "mu_neg": None if rnd.random() < 0.3 else round(rnd.uniform(-10, 10), 3),
                   "sigma_pos": rnd.choice([3.75, round(rnd.uniform(0.05, 20), 3)]), "sigma_neg": rnd.choice([3.0, round(rnd.uniform(0.05, 20), 3)]),
@@ -186,7 +189,8 @@ def execute(scn, ctx):
     try:
         if fm:
             probe("from_metrics")
-            nd = E.NormalDataset.from_metrics(fm["fnr"], fm["fpr"], fm["fnr_support"], fm["fpr_support"],
+            st_ = getattr(np, fm["support_type"]) if fm.get("support_type") else int
+            nd = E.NormalDataset.from_metrics(fm["fnr"], fm["fpr"], st_(fm["fnr_support"]), st_(fm["fpr_support"]),
                                               sigma_pos=fm["sigma_pos"], sigma_neg=fm["sigma_neg"])
         else:
             pt = ns.get("param_type")
